@@ -124,44 +124,40 @@ Section Lookup.
         destruct (lidx rest (flatten t)) as [j|]; [|reflexivity]. cbn [option_map]. f_equal. lia.
   Qed.
 
-  (* membership as the code computes it agrees with the lookup for keys that are not over-long *)
-  Lemma contains_lookup d : forall lv, lwf d lv -> forall key pos, (length key <= d)%nat ->
+  (* membership as the code computes it agrees with the lookup -- for EVERY key, over-long ones
+     included, since fix 248eb88 (gen_hier_contains_checks_exhausted = true is re-read from the source
+     on every run; this proof breaks if the check disappears again) *)
+  Lemma contains_lookup d : forall lv, lwf d lv -> forall key pos,
     lv_contains ceqb key lv = is_ok (leaf_loc ceqb key lv pos).
   Proof.
-    induction d as [|d IH]; intros lv W key pos Hl; [contradiction|].
+    induction d as [|d IH]; intros lv W key pos; [contradiction|].
     destruct key as [|k rest]; [destruct lv; reflexivity|].
     destruct lv as [o ls|o ls tg]; cbn [lwf] in W; cbn [lv_contains leaf_loc].
-    - destruct W as [-> _]. destruct rest; [|cbn in Hl; lia].
-      rewrite (index_of_memb C ceqb ceqb_spec). destruct (index_of ceqb k ls); reflexivity.
+    - rewrite (index_of_memb C ceqb ceqb_spec).
+      destruct (index_of ceqb k ls); destruct rest; reflexivity.
     - destruct W as (Hd & ND & L & F & O).
       destruct (index_of ceqb k ls) as [i|]; [|reflexivity].
       destruct (nth_error tg (Z.to_nat i)) as [t|] eqn:En; [|reflexivity].
-      apply IH; [|cbn in Hl; lia]. rewrite Forall_forall in F. apply F. eapply nth_error_In. exact En.
+      apply IH. rewrite Forall_forall in F. apply F. eapply nth_error_In. exact En.
   Qed.
 
-  Lemma contains_spec d lv key : lwf d lv -> (length key <= d)%nat ->
+  Lemma contains_spec d lv key : lwf d lv ->
     M_h_contains ceqb lv key = S_h_contains ceqb (flatten lv) key.
   Proof.
-    intros W Hl. unfold M_h_contains, S_h_contains, lmemb.
-    rewrite (contains_lookup d lv W key 0 Hl), (leaf_loc_spec d lv W key 0).
+    intros W. unfold M_h_contains, S_h_contains, lmemb.
+    rewrite (contains_lookup d lv W key 0), (leaf_loc_spec d lv W key 0).
     rewrite (index_of_memb label (leqb ceqb) leqb_spec). fold (lidx key (flatten lv)).
     destruct (lidx key (flatten lv)); reflexivity.
   Qed.
 
   (* ---------------------------------------------------------------- the whole object *)
-  Definition probes_ok (labs : list label) (probes : list label) : bool :=
-    match labs with
-    | [] => true
-    | first :: _ => forallb (fun k => (length k <=? length first)%nat) probes
-    end.
-
   Lemma lnodupb_NoDup (l : list label) : lnodupb ceqb l = true <-> NoDup l.
   Proof. unfold lnodupb. apply (nodupb_NoDup label (leqb ceqb) leqb_spec). Qed.
 
-  Theorem M_from_labels_refines labs probes : probes_ok labs probes = true ->
+  Theorem M_from_labels_refines labs probes :
     M_from_labels_obs ceqb labs probes = S_from_labels ceqb labs probes.
   Proof.
-    intros G. unfold M_from_labels_obs, S_from_labels, M_from_labels, S_h_accepts.
+    unfold M_from_labels_obs, S_from_labels, M_from_labels, S_h_accepts.
     destruct labs as [|first rest]; [reflexivity|].
     set (labs := first :: rest) in *. set (d := length first) in *.
     destruct (d <? 2)%nat eqn:Ed; [reflexivity|]. apply Nat.ltb_ge in Ed. cbn [negb andb].
@@ -180,9 +176,7 @@ Section Lookup.
         rewrite (lv_len_flatten C ceqb ceqb_spec d lv Wl), Fl. unfold zlen at 2. rewrite Nat2Z.id. f_equal.
         * apply map_ext. intros key. unfold M_leaf_loc_to_iloc, S_h_lookup.
           rewrite (leaf_loc_spec d lv Wl key 0), Fl. destruct (lidx key labs); reflexivity.
-        * apply map_ext_in. intros key Hk. rewrite <- Fl. apply (contains_spec d); [exact Wl|].
-          unfold probes_ok, labs in G. rewrite forallb_forall in G. specialize (G key Hk).
-          apply Nat.leb_le in G. exact G.
+        * apply map_ext. intros key. rewrite <- Fl. apply (contains_spec d). exact Wl.
       + destruct B as [-> N]. rewrite P in N.
         destruct (lnodupb ceqb labs) eqn:E; [apply lnodupb_NoDup in E; contradiction | reflexivity].
     - destruct S as [-> F]. rewrite F. reflexivity.
